@@ -162,7 +162,8 @@ macro_rules! grp_mul_small_ops {
 macro_rules! grp_mulgen_set {
     ($P:ty) => {
         fn mulgen(s: &Self::S, form: u8) -> Self {
-            match form % 3 { 0 => <$P>::mulgen(s), 1 => { let mut r = <$P>::NEUTRAL; r.set_mulgen(s); r } _ => <$P>::BASE * s }
+            match form % 4 { 0 => <$P>::mulgen(s), 1 => { let mut r = <$P>::NEUTRAL; r.set_mulgen(s); r } 2 => <$P>::BASE * s, _ => { // in place on a receiver that already holds a point: the previous value must not matter
+                let mut r = <$P>::BASE + <$P>::BASE; r.set_mulgen(s); r } }
         }
     };
 }
